@@ -538,6 +538,8 @@ def run(ctx):
     finally:
         try:
             extra_oracles.gm_refit_history(ctx, 'C12')
+            from .. import extra_oracles2
+            extra_oracles2.gm_from_dict_conditional(ctx)
         except Exception as ex:       # the oracle itself must never hide the result of the check proper
             ctx.obligation('oracle:extra:raised', False, 'correspondence', repr(ex))
             ctx.violation('oracle:extra:raised:' + type(ex).__name__, 'history/recovery oracle raised ' + repr(ex), {'repro': '# see tools/vf/extra_oracles.py'})
